@@ -45,6 +45,7 @@ exactly two recorded defects:
 Core Lean only.
 -/
 import SerfProofs.Lemmas.NodeObserver
+import SerfProofs.Props.C15
 namespace SerfProofs.C01
 open SerfModel SerfModel.Node SerfProofs.NodeGossip SerfProofs.NodeObserver
 
@@ -183,5 +184,26 @@ nothing: the observer lists a running member as leaving -/
 theorem C01_running_alive_counterexample :
     statusOf (run (Node.init "a" {}) [.nodeJoin "x", .leaveMsg "x" 5 false 0, .nodeLeave "x" 0, .nodeJoin "x",
       .merge 6 [("x", 5)] ["x"] 0, .joinMsg "x" 6 0]) "x" = some .leaving := by decide
+
+/-! ### the reaper lists never cost a running member its entry
+
+A member that memberlist reports up is listed alive or leaving, hence (bookkeeping invariant, C15)
+on neither reaper list, hence never erased by the reaper — after EVERY history, in particular after
+failed → left (force-leave) → rejoin, where `handleNodeJoin` must scrub BOTH lists (seeded change
+C01-a scrubs only one and the rejoined member is reaped while alive). -/
+
+theorem C01_alive_never_reaped (name : Name) (cfg : Config) (ops : List Op) (x : Name) (now : Nat)
+    (ov : Name → Nat → Nat)
+    (hs : statusOf (run (Node.init name cfg) ops) x = some .alive ∨ statusOf (run (Node.init name cfg) ops) x = some .leaving) :
+    statusOf (step (run (Node.init name cfg) ops) (.reap now ov)).1 x = statusOf (run (Node.init name cfg) ops) x := by
+  have h := SerfProofs.C15.C15_reaper_spares_unlisted _ now ov
+    (SerfProofs.C15.C15_inv_run _ ops (SerfProofs.C15.C15_inv_init name cfg)) x hs
+  simp only [step, statusOf, h]
+
+/-- the C01-a history: x fails, is force-left (failed → left), comes back, and survives every later reaper tick -/
+example : statusOf (run (Node.init "a" {}) [.nodeJoin "x", .nodeLeave "x" 0, .leaveMsg "x" 4 false 0,
+    .nodeJoin "x", .reap 100000 (fun _ t => t), .reap 200000 (fun _ _ => 0)]) "x" = some .alive := by decide
+example : (run (Node.init "a" {}) [.nodeJoin "x", .nodeLeave "x" 0, .leaveMsg "x" 4 false 0, .nodeJoin "x"]).failed = [] ∧
+    (run (Node.init "a" {}) [.nodeJoin "x", .nodeLeave "x" 0, .leaveMsg "x" 4 false 0, .nodeJoin "x"]).left = [] := by decide
 
 end SerfProofs.C01
